@@ -14,14 +14,14 @@ RULE = ("exhaustive: records over {0,+-1,+-2} up to length 5 (quick) / 6 (thorou
         "magnitudes; custom cumulative-measure callables (CAV, running sum); se in {T,F}. distinct = hash of (record, dt, params); "
         "non-trivial = length >= 3 and not constant")
 TIE = "correspondence (hand model Model/Im.lean: sigDurVals / sigDur / sigDurSeries / bracDur on exact rationals)"
-NOT_PROVED = ["C10.d for the default Arias (trapezoid) measure when a[0] != 0: false of code and model (open finding F10-1); proved under a[0] = 0",
-              "decimal fractions such as 0.05 are compared as the doubles the impl receives; products start*total are rounded by the impl "
+NOT_PROVED = ["C10.d for the default Arias measure when a[0] != 0 is false of code and model (open finding F10-1); proved instead the exact relation: k >= 1 zeros give k*dt + start/end of the series raised by dt*a0^2/2, and the property's shift holds iff raising the series changes no threshold decision (Props/C10ZeroPrefix)",
+              "decimal fractions such as 0.05 are compared as the doubles the impl receives; products start*total are rounded by the impl ",
               "(dyadic-safe generators decide strict vs non-strict exactly)"]
 
 FRACS = [Fraction(1, 16), Fraction(1, 8), Fraction(1, 4), Fraction(3, 8), Fraction(1, 2), Fraction(5, 8), Fraction(3, 4), Fraction(7, 8), Fraction(15, 16)]
 
 
-PROP_MODULES = ['C10', 'C10Gen']
+PROP_MODULES = ['C10', 'C10Gen', 'C10GenObject', 'C10ZeroPrefix']
 
 def spec_sigdur(cum, dt, s, e):
     """(t_start, t_end) from a cumulative series, exact; None when no sample lies strictly between"""
@@ -652,3 +652,16 @@ def run(ctx):
 
 # evidence: how the model is tied to the source on every run (as built, supersedes the value above)
 TIE = 'translator (duration functions and aliases -> Gen/ImDur; Props/C10Gen) + correspondence (exhaustive small records x fraction grid)'
+
+
+# ---- round-7 deliveries (lw_small / tw_single3): further correspondences of models with new theorems -------------------------
+import _lw_small as _LW  # noqa: E402
+from _single3_corr import corr_single3  # noqa: E402
+_run_main_r7 = run
+
+
+def run(ctx):
+    _run_main_r7(ctx)
+    _LW.corr_sigdur_prefix(ctx)
+    corr_single3(ctx, parts=('stats',))
+    ctx.flush()
